@@ -5,11 +5,12 @@
 (* objects and of the class-level lists plus the expected outcome class.      *)
 EXTENDS Container, Json
 
-CONSTANTS Slice,     \* "ops" | "hist" | "copy" | "sim"
+CONSTANTS Slice,     \* "ops" | "hist" | "copy" | "sim" | "opsx" | "simx"
           Kinds,     \* initial configurations explored: subset of {"container", "hist2", "model", "linker", "nested"}
           SpanL,     \* span length
           Shard, NShards,
-          ShardAt    \* the shard constraint applies to the operation taken after ShardAt operations
+          ShardAt,   \* the shard constraint applies to the operation taken after ShardAt operations
+          Extras     \* TRUE: the alphabets include Copy, NewSibling, MutateList, SetLagsLeads, Solve (C11); FALSE: C09's alphabet
 
 VARIABLES hist,      \* sequence of [op, out, hint, objs, cls]: the emitted history
           init0      \* projection of the initial objects
@@ -55,7 +56,7 @@ Routes == {"copy", "copy.copy", "deepcopy"}
 LagLead(L) == {p \in {<<1, 0>>, <<2, 0>>, <<1, 1>>} : p[1] + p[2] + 1 <= L}
 
 ModelOnly(O, o) ==
-  IF O[o].class = "container" THEN {}
+  IF O[o].class = "container" \/ ~Extras THEN {}
   ELSE {MutateList(o, w) : w \in {"names", "check", "endogenous"}}
        \cup {SetLagsLeads(o, p[1], p[2]) : p \in LagLead(O[o].L)} \cup {Solve(o)}
 
@@ -80,7 +81,7 @@ FullOps(O, o) ==
       \cup {ReplaceValues(o, <<n1, "Q">>, <<SHalf, SInt>>) : n1 \in T}
       \cup {SetValues(o, x) : x \in Scalars \cup {Opd(c, k, 1) : c \in {"Arr2X", "Arr2NN", "Arr2N1", "Arr1"}, k \in {"int", "half", "bool", "str"}}}
       \cup {AddAttribute(o, "note")} \cup {AddAttribute(o, n) : n \in T}
-      \cup {ToggleStrict(o)} \cup {Copy(o, r) : r \in Routes} \cup {NewSibling(o)}
+      \cup {ToggleStrict(o)} \cup (IF Extras THEN {Copy(o, r) : r \in Routes} \cup {NewSibling(o)} ELSE {})
       \cup ModelOnly(O, o)
 
 (* K-ops: structurally different states reachable in one operation, then everything once *)
@@ -88,8 +89,8 @@ PrefixOps(O, o) ==
   LET ob == O[o]
       t  == CHOOSE n \in Targets(ob) : n \in {"I", "iterations"}
   IN  {ToggleStrict(o), AddVariable(o, "N", SHalf, "i"), AddAttribute(o, "note"), SetAttr(o, "note", Opd("List", "int", 1)),
-       SetAttr(o, t, SHalf), SetValues(o, SInt), Copy(o, "copy"), NewSibling(o), AddVariable(o, "Nn", Opd("StrScalar", "str", 1), "")}
-      \cup ModelOnly(O, o)
+       SetAttr(o, t, SHalf), SetValues(o, SInt), AddVariable(o, "Nn", Opd("StrScalar", "str", 1), "")}
+      \cup (IF Extras THEN {Copy(o, "copy"), NewSibling(o)} ELSE {}) \cup ModelOnly(O, o)
 
 (* K-hist: reduced alphabet, two variables *)
 HistOps(O, o) ==
@@ -106,15 +107,27 @@ HistOps(O, o) ==
       \cup {SetValues(o, x) : x \in {SHalf, Opd("Arr2X", "half", 1), Opd("Arr2N1", "int", 1)}}
       \cup {SetPos(o, ti, 0, SHalf)} \cup {AddAttribute(o, "note"), ToggleStrict(o)}
 
+(* K-hist at depth >= 4: the operations that change the state or are the named rejections *)
+HistOps4(O, o) ==
+  LET ob == O[o]
+      T2 == RangeOf(ob.index) \cap {"F", "I", "Y", "iterations", "G"}
+      ti == CHOOSE n \in T2 : ob.series[n].dt = "i"
+  IN  {SetAttr(o, n, x) : n \in T2, x \in {SHalf, Opd("List", "int", 1), Opd("ListM", "int", 1), Opd("Nested2", "int", 1), Opd("Arr1One", "int", 3)}}
+      \cup {SetAttr(o, "note", SInt), SetItem(o, ti, Opd("Nested2", "int", 1)), SetLabel(o, ti, 1, SHalf), SetLabel(o, ti, ob.L, SHalf),
+            SetSlice(o, ti, 0, 1, Opd("ListM", "int", 2)), AddVariable(o, "N", SHalf, "i"), AddVariable(o, "N", Opd("ListM", "int", 1), ""),
+            SetValues(o, SHalf), SetValues(o, Opd("Arr2N1", "int", 1)), SetPos(o, ti, 0, SHalf), AddAttribute(o, "note"), ToggleStrict(o)}
+      \cup {ReplaceValues(o, <<p[1], p[2]>>, <<SHalf, Opd("ListP", "int", 1)>>) : p \in {q \in T2 \X T2 : q[1] # q[2] /\ O[o].series[q[1]].dt = "f"}}
+
 (* K-copy: mutations applied to either side of one copy / sibling taken at any point *)
 MutOps(O, o) ==
   LET ob == O[o]
       T  == Targets(ob)
-      ti == CHOOSE n \in T : ob.series[n].dt = "i"
-      tf == CHOOSE n \in T : ob.series[n].dt = "f"
-  IN  {SetAttr(o, tf, SHalf), SetItem(o, ti, Opd("List", "int", 2)), SetLabel(o, tf, 1, SInt), SetSlice(o, ti, 0, 1, SHalf),
-       SetPos(o, tf, 0, SInt), SetValues(o, SInt), ReplaceValues(o, <<tf>>, <<Opd("Arr1", "float", 2)>>),
-       AddVariable(o, "N", SHalf, "i"), AddAttribute(o, "note"), SetAttr(o, "memo", Opd("List", "int", 1)), ToggleStrict(o)}
+      Ti == {n \in T : ob.series[n].dt = "i"}
+      Tf == {n \in T : ob.series[n].dt = "f"}
+  IN  UNION {{SetAttr(o, tf, SHalf), SetLabel(o, tf, 1, SInt), SetPos(o, tf, 0, SInt), SetValues(o, SInt),
+              ReplaceValues(o, <<tf>>, <<Opd("Arr1", "float", 2)>>)} : tf \in Tf}
+      \cup UNION {{SetItem(o, ti, Opd("List", "int", 2)), SetSlice(o, ti, 0, 1, SHalf)} : ti \in Ti}
+      \cup {AddVariable(o, "N", SHalf, "i"), AddAttribute(o, "note"), SetAttr(o, "memo", Opd("List", "int", 1)), ToggleStrict(o)}
       \cup ModelOnly(O, o)
 SubMutOps(O, s) == {SetAttr(s, "Y", SHalf), SetPos(s, "X", 0, SInt), MutateList(s, "check"), AddVariable(s, "N", SInt, "")}
 NoCopyYet(O) == Len(O) = Cardinality(Owned(O, 1))
@@ -122,32 +135,39 @@ CopyOps(O)   == {Copy(1, r) : r \in Routes} \cup {NewSibling(1)}
 AllMut(O)    == UNION {MutOps(O, o) : o \in Roots(O)}
                 \cup UNION {SubMutOps(O, s) : s \in {x \in 1..Len(O) : x \notin Roots(O) /\ O[x].class = "model"}}
 
+AllCopies(O) == UNION {{Copy(o, r) : r \in Routes} \cup {NewSibling(o)} : o \in Roots(O)}
 MCAlphabet(O, k) ==
   CASE Slice = "ops"  -> IF k = 0 THEN PrefixOps(O, 1) ELSE UNION {FullOps(O, o) : o \in Roots(O)}
-    [] Slice = "hist" -> HistOps(O, 1)
+    [] Slice = "hist" -> IF Budget >= 4 THEN HistOps4(O, 1) ELSE HistOps(O, 1)
     [] Slice = "copy" -> IF NoCopyYet(O) THEN (IF k = Budget - 1 THEN CopyOps(O) ELSE AllMut(O) \cup CopyOps(O)) ELSE AllMut(O)
-    [] Slice = "sim"  -> UNION {FullOps(O, o) : o \in Roots(O)}
+    [] Slice = "opsx" -> IF k = 0 THEN PrefixOps(O, 1) ELSE AllMut(O) \cup AllCopies(O)      \* C11: independence-relevant operations only
+    [] Slice = "simx" -> LET S == {op \in AllMut(O) \cup AllCopies(O) : Legal(O, op)}
+                         IN  IF S = {} THEN {} ELSE {RandomElement(S)}
+    [] Slice = "sim"  -> LET S == {op \in UNION {FullOps(O, o) : o \in Roots(O)} : Legal(O, op)}     \* -simulate: one random legal
+                         IN  IF S = {} THEN {} ELSE {RandomElement(S)}                               \* operation per step (TLC would
+                                                                                                      \* otherwise build every successor)
 
 ----------------------------------------------------------------------------
 (* sharding: a numeric code of the operation taken after ShardAt operations *)
-OpNum   == [AddVariable |-> 1, SetAttr |-> 2, SetItem |-> 3, SetLabel |-> 4, SetSlice |-> 5, SetPos |-> 6, ReplaceValues |-> 7,
-            SetValues |-> 8, AddAttribute |-> 9, ToggleStrict |-> 10, Copy |-> 11, NewSibling |-> 12, MutateList |-> 13,
-            SetLagsLeads |-> 14, Solve |-> 15, none |-> 0]
+OpNum(x) == CASE x = "AddVariable" -> 1 [] x = "SetAttr" -> 2 [] x = "SetItem" -> 3 [] x = "SetLabel" -> 4 [] x = "SetSlice" -> 5
+              [] x = "SetPos" -> 6 [] x = "ReplaceValues" -> 7 [] x = "SetValues" -> 8 [] x = "AddAttribute" -> 9 [] x = "ToggleStrict" -> 10
+              [] x = "Copy" -> 11 [] x = "NewSibling" -> 12 [] x = "MutateList" -> 13 [] x = "SetLagsLeads" -> 14 [] x = "Solve" -> 15 [] OTHER -> 0
 ClsNum  == [none |-> 0, Scalar |-> 1, StrScalar |-> 2, List |-> 3, ListM |-> 4, ListP |-> 5, Tuple |-> 6, Range |-> 7, Nested1 |-> 8,
             Nested2 |-> 9, Arr1 |-> 10, Arr1One |-> 11, Arr1P |-> 12, Arr2NN |-> 13, Arr2N1 |-> 14, Arr2X |-> 15]
 KindNum == [none |-> 0, int |-> 1, float |-> 2, half |-> 3, bool |-> 4, str |-> 5]
 NameNum(n) == CASE n = "F" -> 1 [] n = "I" -> 2 [] n = "B" -> 3 [] n = "S" -> 4 [] n = "Y" -> 5 [] n = "G" -> 6
                 [] n = "iterations" -> 7 [] n = "N" -> 8 [] n = "Q" -> 9 [] n = "note" -> 10 [] n = "X" -> 11 [] OTHER -> 0
-Code(op) == OpNum[op.op] + 3 * op.o + 5 * NameNum(op.n) + 7 * ClsNum[op.opd.cls] + 11 * KindNum[op.opd.kind] + 13 * op.opd.base
+Code(op) == OpNum(op.op) + 3 * op.o + 5 * NameNum(op.n) + 7 * ClsNum[op.opd.cls] + 11 * KindNum[op.opd.kind] + 13 * op.opd.base
             + 17 * op.pos + 19 * op.a + 23 * op.b + 29 * Len(op.names) + 31 * Len(op.which) + 37 * Len(op.route) + 41 * op.lg + 43 * op.ld
             + 47 * Len(op.dt)
 
 ----------------------------------------------------------------------------
 (* emission *)
-ProjObj(O, o) == [size |-> Size(O, o), nbytes |-> NBytes(O, o), values |-> Values(O[o]),
+ProjObj(O, o) == [size |-> Size(O, o), nbytes |-> NBytes(O, o), vrows |-> VNames(O[o]), values |-> Values(O[o]),
                   uraw |-> [n \in DOMAIN O[o].uattr |-> Raw(O[o].uattr[n], O[o].L, 0)]] @@ O[o]
 ProjAll(O)    == [o \in 1..Len(O) |-> ProjObj(O, o)]
-EmitOp(O, op) == [raw |-> IF op.opd = NoOpd THEN <<>> ELSE Raw(op.opd, O[op.o].L, Len(VNames(O[op.o]))),
+EmitOp(O, op) == [elem |-> IF op.op = "MutateList" THEN ListElem(O[op.o], op.which) ELSE "",
+                  raw |-> IF op.opd = NoOpd THEN <<>> ELSE Raw(op.opd, O[op.o].L, Len(VNames(O[op.o]))),
                   raws |-> [i \in 1..Len(op.opds) |-> Raw(op.opds[i], O[op.o].L, 0)]] @@ op
 
 MCInit == Init /\ hist = <<>> /\ init0 = ProjAll(objs)
